@@ -201,18 +201,21 @@ pub(super) fn serialize<'se, W: Write>(
     raw_parts: Option<&TransactionWitnessSetRaw>,
     serializer: &'se mut Serializer<W>,
 ) -> cbor_event::Result<&'se mut Serializer<W>> {
-    let mut has_plutus_v1 = false;
-    let mut has_plutus_v2 = false;
-    let mut has_plutus_v3 = false;
-    let plutus_added_length = match &wit_set.plutus_scripts {
-        Some(scripts) => {
-            has_plutus_v1 = scripts.has_version(&Language::new_plutus_v1());
-            has_plutus_v2 = scripts.has_version(&Language::new_plutus_v2());
-            has_plutus_v3 = scripts.has_version(&Language::new_plutus_v3());
-            (has_plutus_v1 as u64) + (has_plutus_v2 as u64) + (has_plutus_v3 as u64)
-        },
-        _ => 0,
-    };
+    // a per-language script field is written when scripts of that language are present or when
+    // the field came with raw bytes (e.g. an empty collection that must be preserved)
+    let raw_plutus_v1 = raw_parts.and_then(|x| x.plutus_scripts_v1.as_ref());
+    let raw_plutus_v2 = raw_parts.and_then(|x| x.plutus_scripts_v2.as_ref());
+    let raw_plutus_v3 = raw_parts.and_then(|x| x.plutus_scripts_v3.as_ref());
+    let mut has_plutus_v1 = raw_plutus_v1.is_some();
+    let mut has_plutus_v2 = raw_plutus_v2.is_some();
+    let mut has_plutus_v3 = raw_plutus_v3.is_some();
+    if let Some(scripts) = &wit_set.plutus_scripts {
+        has_plutus_v1 |= scripts.has_version(&Language::new_plutus_v1());
+        has_plutus_v2 |= scripts.has_version(&Language::new_plutus_v2());
+        has_plutus_v3 |= scripts.has_version(&Language::new_plutus_v3());
+    }
+    let plutus_added_length =
+        (has_plutus_v1 as u64) + (has_plutus_v2 as u64) + (has_plutus_v3 as u64);
     // a field is written below iff it is present and either comes with raw bytes or is non-empty:
     // the map length must count exactly those fields
     fn written<T: NoneOrEmpty>(field: &Option<T>, raw: Option<&Vec<u8>>) -> u64 {
@@ -256,33 +259,19 @@ pub(super) fn serialize<'se, W: Write>(
     }
 
     //no need deduplication here because transaction witness set already has deduplicated plutus scripts
-    if let Some(plutus_scripts) = &wit_set.plutus_scripts {
-        if has_plutus_v1 {
-            if let Some(raw) = raw_parts.as_ref().map(|x| x.plutus_scripts_v1.as_ref()).flatten() {
-                serializer.write_unsigned_integer(3)?;
-                serializer.write_raw_bytes(raw)?;
-            } else {
-                serializer.write_unsigned_integer(3)?;
-                plutus_scripts.serialize_as_set_by_version(false, &Language::new_plutus_v1(), serializer)?;
-            }
+    for (has_version, key, raw, language) in [
+        (has_plutus_v1, 3u64, raw_plutus_v1, Language::new_plutus_v1()),
+        (has_plutus_v2, 6u64, raw_plutus_v2, Language::new_plutus_v2()),
+        (has_plutus_v3, 7u64, raw_plutus_v3, Language::new_plutus_v3()),
+    ] {
+        if !has_version {
+            continue;
         }
-        if has_plutus_v2 {
-            if let Some(raw) = raw_parts.as_ref().map(|x| x.plutus_scripts_v2.as_ref()).flatten() {
-                serializer.write_unsigned_integer(6)?;
-                serializer.write_raw_bytes(raw)?;
-            } else {
-                serializer.write_unsigned_integer(6)?;
-                plutus_scripts.serialize_as_set_by_version(false, &Language::new_plutus_v2(), serializer)?;
-            }
-        }
-        if has_plutus_v3 {
-            if let Some(raw) = raw_parts.as_ref().map(|x| x.plutus_scripts_v3.as_ref()).flatten() {
-                serializer.write_unsigned_integer(7)?;
-                serializer.write_raw_bytes(raw)?;
-            } else {
-                serializer.write_unsigned_integer(7)?;
-                plutus_scripts.serialize_as_set_by_version(false, &Language::new_plutus_v3(), serializer)?;
-            }
+        serializer.write_unsigned_integer(key)?;
+        if let Some(raw) = raw {
+            serializer.write_raw_bytes(raw)?;
+        } else if let Some(plutus_scripts) = &wit_set.plutus_scripts {
+            plutus_scripts.serialize_as_set_by_version(false, &language, serializer)?;
         }
     }
     if let Some(field) = &wit_set.plutus_data {
